@@ -306,12 +306,7 @@ func c10R2R3(c *Ctx) {
 		c.R.Check(okF, r3, rel+".StartWithBackoff: exhausted retries return a fatal error", c.Pos(fn.Pos()), "cerrors.FatalError(...)", "exceeding MaxRetries no longer returns cerrors.FatalError: the cleanup goroutine would not leave the pipeline degraded", true)
 		// still the live run
 		runningF := c.Field(r3, rel, "Service", "runningPipelines")
-		var rpParam ssa.Value
-		for _, p := range fn.Params {
-			if p.Name() == "rp" {
-				rpParam = p
-			}
-		}
+		rpParam := paramOfNamed(fn, "runnablePipeline")
 		gLive := kit.NewGates()
 		for _, g := range mapCalls(fn, runningF, "Get") {
 			cur := kit.ResultN(g.(ssa.CallInstruction), 0)
@@ -559,12 +554,7 @@ func c11R8(c *Ctx) {
 			continue
 		}
 		runningF := c.Field(r, rel, "Service", "runningPipelines")
-		var rpParam ssa.Value
-		for _, p := range fn.Params {
-			if p.Name() == "rp" {
-				rpParam = p
-			}
-		}
+		rpParam := paramOfNamed(fn, "runnablePipeline")
 		gLive := kit.NewGates()
 		for _, g := range mapCalls(fn, runningF, "Get") {
 			cur := kit.ResultN(g.(ssa.CallInstruction), 0)
@@ -611,12 +601,7 @@ func c11R1(c *Ctx) {
 		// published value is the rp parameter
 		for _, s := range sets {
 			a := s.(ssa.CallInstruction).Common().Args
-			var rpP ssa.Value
-			for _, prm := range fn.Params {
-				if prm.Name() == "rp" {
-					rpP = prm
-				}
-			}
+			rpP := paramOfNamed(fn, "runnablePipeline")
 			c.R.Check(kit.IsVar(a[len(a)-1], rpP), r, rel+".runPipeline: publishes this run", c.Pos(posOf(s)), "ok", "the published value is not the run being started", true)
 		}
 		// no other publisher in the package
@@ -660,21 +645,16 @@ func c11R2R5(c *Ctx) {
 				nDel++
 				ok := strings.HasSuffix(kit.FuncKey(f), ".deleteRunningPipelineIfCurrent")
 				c.R.Check(ok, r2, "v1 runningPipelines.Delete in "+kit.FuncKey(f), c.Pos(posOf(d)), "compare-and-delete helper", "the published entry is deleted in "+kit.FuncKey(f)+" without the compare-and-delete helper: a finished run can delete its successor's entry (#2806)", false)
-				c.R.Check(containsLock(ls[d], "s.publishMu"), r5, "v1 Delete under publishMu ("+kit.FuncKey(f)+")", c.Pos(posOf(d)), "held "+ls[d], "runningPipelines.Delete without publishMu", true)
+				c.R.Check(containsLock(ls[d], "recv.publishMu"), r5, "v1 Delete under publishMu ("+kit.FuncKey(f)+")", c.Pos(posOf(d)), "held "+ls[d], "runningPipelines.Delete without publishMu", true)
 			}
 			for _, s := range mapCalls(ff, runningF, "Set") {
-				c.R.Check(containsLock(ls[s], "s.publishMu"), r5, "v1 Set under publishMu ("+kit.FuncKey(f)+")", c.Pos(posOf(s)), "held "+ls[s], "runningPipelines.Set without publishMu", true)
+				c.R.Check(containsLock(ls[s], "recv.publishMu"), r5, "v1 Set under publishMu ("+kit.FuncKey(f)+")", c.Pos(posOf(s)), "held "+ls[s], "runningPipelines.Set without publishMu", true)
 			}
 		}
 	}
 	c.R.Check(nDel == 1, r2, "v1: a single delete site", "", "1", "expected exactly one runningPipelines.Delete in pkg/lifecycle", false)
 	if fn := c.SSA(r2, pLife, "(*Service).deleteRunningPipelineIfCurrent"); fn != nil {
-		var rpParam ssa.Value
-		for _, prm := range fn.Params {
-			if prm.Name() == "rp" {
-				rpParam = prm
-			}
-		}
+		rpParam := paramOfNamed(fn, "runnablePipeline")
 		g := kit.NewGates()
 		for _, gt := range mapCalls(fn, runningF, "Get") {
 			cur := kit.ResultN(gt.(ssa.CallInstruction), 0)
